@@ -1750,6 +1750,15 @@ func TestReplay(t *testing.T) {
 			t.Fatalf("replayed case still fails: %v", err)
 		}
 		return
+	case "TestEnumDefaults":
+		var dc DefaultsCase
+		if err := json.Unmarshal(raw, &dc); err != nil {
+			t.Fatal(err)
+		}
+		if err := stats.Guard(func() error { return checkDefaults(dc, defaultsShapes()) }); err != nil {
+			t.Fatalf("replayed case still fails: %v", err)
+		}
+		return
 	case "TestEnumDynamicTypes":
 		t.Skip("TestEnumDynamicTypes is a fixed enumeration: re-run ./check C01 quick")
 	}
